@@ -644,7 +644,7 @@ theorem acct_reconnect {w : World} {t : Option Nat} (s : Nat) (hA : Acct t w) (h
 
 theorem acct_backendDone {w : World} {t : Option Nat} (s : Nat) (hA : Acct t w) (ht : TOk t s) :
     Acct t (backendDone w s) := by
-  unfold backendDone; split <;> exact acct_updAux _ _ hA ht.oth
+  unfold backendDone; exact acct_updAux _ _ hA ht.oth
 
 theorem acct_connectionClose {w : World} {t : Option Nat} (s : Nat) (hA : Acct t w) (ht : TOk t s) :
     Acct none (connectionClose w s) := by
@@ -656,10 +656,7 @@ theorem acct_connectionClose {w : World} {t : Option Nat} (s : Nat) (hA : Acct t
 theorem acct_backendError {w : World} {t : Option Nat} (s : Nat) (hA : Acct t w) (ht : TOk t s) :
     Acct none (backendError w s).2 := by
   unfold backendError; dsimp only
-  apply acct_connectionClose s _ ht
-  split
-  · exact acct_updAux _ _ hA ht.oth
-  · exact hA
+  exact acct_connectionClose s (acct_updAux _ _ hA ht.oth) ht
 
 theorem acct_recvResponseError {w : World} {t : Option Nat} (s : Nat) (hA : Acct t w) (ht : TOk t s) :
     Acct none (recvResponseError w s).2 := by
